@@ -11,11 +11,11 @@ package server
 // went away); Stop releases everything.
 
 import (
-	"net"
 	"context"
 	"encoding/binary"
 	"fmt"
 	"io"
+	"net"
 	"sync"
 	"testing/synctest"
 	"time"
